@@ -187,3 +187,5 @@ def run(R, ctx):
     stack(R, ctx)
     errors(R, ctx)
     order(R, ctx)
+    from .. import loops
+    loops.index_removal_rule(R, ctx, "C05.index")
